@@ -125,6 +125,8 @@ class Emitter {
       else
         o["rect"] = M->getParent()->getQualifiedNameAsString();
       o["static"] = M->isStatic();
+      if (M->isCopyAssignmentOperator()) o["copyassign"] = true;
+      if (M->isMoveAssignmentOperator()) o["moveassign"] = true;
     }
     const FunctionDecl* P = patternOf(D);
     const FunctionDecl* Def = nullptr;
